@@ -1,6 +1,7 @@
 package session
 
 import (
+	"strings"
 	"context"
 	"encoding/json"
 	"errors"
@@ -141,6 +142,19 @@ func s02Prefix(got, sent []byte) bool {
 // through the real TunnelOpen dispatch (handleExistingBridge), bytes flow through the stream's
 // reader/writer forwarder, one end goes away - or the target never comes - and the server
 // must forget the tunnel.
+// s02SlowStore delays writes of waiting-tunnel records.
+type s02SlowStore struct {
+	*memory.Storage
+	slow time.Duration
+}
+
+func (s *s02SlowStore) Set(k string, v interface{}, ttl time.Duration) error {
+	if s.slow > 0 && strings.HasPrefix(k, "tunnox:tunnel_waiting:") {
+		time.Sleep(s.slow)
+	}
+	return s.Storage.Set(k, v, ttl)
+}
+
 func Harness_C02_session() {
 	verif_ClockSet(int64(1) << 60)
 	ctx, stop := context.WithCancel(context.Background())
@@ -153,7 +167,11 @@ func Harness_C02_session() {
 		Status: models.MappingStatusActive, Protocol: models.ProtocolUDP, TargetHost: "127.0.0.1", TargetPort: 53,
 		Config: configs.MappingConfig{BandwidthLimit: limit}}}})
 	sm.SetTunnelHandler(s02Tunnels{})
-	routingStore := memory.New(ctx)
+	// the store that carries the routing records may be slow to write (a remote Redis)
+	routingStore := &s02SlowStore{Storage: memory.New(ctx), slow: time.Duration(verif_Choose(2)) * 2 * time.Second}
+	if routingStore.slow > 0 {
+		verif_Cover("C02s.slow_routing_store")
+	}
 	routing := NewTunnelRoutingTable(routingStore, time.Minute)
 	sm.SetTunnelRoutingTable(routing)
 
